@@ -205,6 +205,12 @@ impl Scenario for Close {
                         if stall && after == "closeok" && code == 320 {
                             v.push(json!({"who": who, "after": after, "stall": stall, "code": code, "big": true}));
                         }
+                        // both channel ids have been used, closed and opened again (explicitly)
+                        // before the session: they are open channels like any other when the
+                        // connection closes
+                        if !stall && after == "closeok" && code == 320 {
+                            v.push(json!({"who": who, "after": after, "stall": stall, "code": code, "reopened": true}));
+                        }
                     }
                 }
             }
@@ -231,6 +237,7 @@ impl Scenario for Close {
         let mut broker = StdBroker::new(Handshake::default());
         let server = p["who"] == "server";
         let big = p["big"] == true;
+        let reopened = p["reopened"] == true;
         let code = p["code"].as_u64().unwrap() as u16;
         if p["after"] == "closeok+eof" {
             broker.close_behaviour = CloseBehaviour::CloseOkThenEof;
@@ -241,7 +248,9 @@ impl Scenario for Close {
             broker.close_behaviour = CloseBehaviour::Delayed(1_500_000_000);
         }
         if server {
-            broker.pushes.push(Push::new("conn-close", vec![conn_close_frame(code, "server says bye")]).after_frames(6));
+            // (after the handshake, the channel opens - twice each in the reopened variants - and
+            // the first request)
+            broker.pushes.push(Push::new("conn-close", vec![conn_close_frame(code, "server says bye")]).after_frames(if p["reopened"] == true { 10 } else { 6 }));
         }
         let mut cfg = EnvConfig::default();
         cfg.deliver_cuts = true;
@@ -265,6 +274,13 @@ impl Scenario for Close {
                         return;
                     }
                 };
+                if reopened {
+                    for id in [1u16, 2] {
+                        if let Ok(c) = conn.open_channel(Some(id)) {
+                            let _ = c.close();
+                        }
+                    }
+                }
                 let ch1 = conn.open_channel(Some(1));
                 let ch2 = conn.open_channel(Some(2));
                 let (ch1, ch2) = match (ch1, ch2) {
@@ -457,7 +473,7 @@ impl Scenario for Close {
 
 pub struct Death;
 
-fn death_session(ctx: Ctx, bound: usize, drain: bool, drop_instead: bool) {
+fn death_session(ctx: Ctx, bound: usize, drain: bool, drop_instead: bool, dead_peer: bool) {
     let tuning = ConnectionTuning::default().mem_channel_bound(bound);
     let mut conn = match open(&ctx, ConnectionOptions::default().heartbeat(2), tuning) {
         Ok(c) => c,
@@ -471,6 +487,11 @@ fn death_session(ctx: Ctx, bound: usize, drain: bool, drop_instead: bool) {
     ctx.log(format!("open_channel1 -> {}", res(&ch1)));
     let ch2 = conn.open_channel(Some(2));
     ctx.log(format!("open_channel2 -> {}", res(&ch2)));
+    if dead_peer {
+        // from here on the peer neither talks nor takes anything: whatever the client wants to
+        // send (its own heartbeats included) stays in its buffer
+        ctx.stall_transport();
+    }
     let mut actors = Vec::new();
     if let Ok(ch) = ch1 {
         actors.push(ctx.spawn("a", move |ctx| {
@@ -565,6 +586,11 @@ impl Scenario for Death {
         for fault in ["silence", "serverclose", "clientexception", "none"] {
             v.push(json!({"fault": fault, "bound": 16, "drop": true}));
         }
+        // a peer that has gone silent and takes no more bytes either (with close and with drop)
+        for bound in [1usize, 16] {
+            v.push(json!({"fault": "deadpeer", "bound": bound, "dead_peer": true}));
+            v.push(json!({"fault": "deadpeer", "bound": bound, "dead_peer": true, "drop": true}));
+        }
         for at in [0usize, 120, 200, 260] {
             v.push(json!({"fault": "eof", "at": at, "bound": 16, "drop": true}));
             v.push(json!({"fault": "readerr", "at": at, "bound": 16, "drop": true}));
@@ -606,7 +632,11 @@ impl Scenario for Death {
         let bound = p["bound"].as_u64().unwrap() as usize;
         let drain = p["fault"] != "none" && p["closing"] != true;
         let drop_instead = p["drop"] == true;
-        Built { broker: Box::new(broker), cfg, root: Box::new(move |ctx: Ctx| death_session(ctx, bound, drain, drop_instead)) }
+        let dead_peer = p["dead_peer"] == true;
+        if dead_peer {
+            cfg.no_grants = true;
+        }
+        Built { broker: Box::new(broker), cfg, root: Box::new(move |ctx: Ctx| death_session(ctx, bound, drain, drop_instead, dead_peer)) }
     }
     fn check(&self, p: &Value, o: &Outcome, _w: &World) -> Vec<(String, String)> {
         use vh::sim::world::IoEvent;
@@ -635,7 +665,7 @@ impl Scenario for Death {
             "readerr" | "readerr-interrupted" => vec!["Err(IoErrorReadingSocket)".into()],
             "writeerr" => vec!["Err(IoErrorWritingSocket)".into()],
             "malformed" => vec!["Err(MalformedFrame)".into()],
-            "silence" => vec!["Err(MissedServerHeartbeats)".into()],
+            "silence" | "deadpeer" => vec!["Err(MissedServerHeartbeats)".into()],
             "serverclose" if got_server_close => vec!["Err(ServerClosedConnection(320,going down))".into()],
             "clientexception" if got_tx => vec!["Err(ClientException)".into()],
             _ => vec!["Ok".into()],
